@@ -43,9 +43,12 @@ type zzBk struct{ day, cr, dr, com, q int }
 // price declaration: on day, price of com in tgt, price slot
 type zzPr struct{ day, com, tgt, p int }
 
+type zzCl struct{ day, acc int }
+
 type zzShape struct {
 	bk []zzBk
 	pr []zzPr
+	cl []zzCl // close directives
 }
 
 var zzConstQ = []string{"0", "-3.5", "100", "0.00000001", "12345.678"}
@@ -69,6 +72,10 @@ var zzShapes = []zzShape{
 	11: {bk: []zzBk{{0, aI, aX, 1, 0}, {3, aEq, aA, 0, 1}}, pr: []zzPr{{2, 1, 0, 0}}},
 	// liability in a foreign commodity held across two price changes
 	12: {bk: []zzBk{{0, aL, aA, 1, 0}, {2, aA, aX, 0, 1}}, pr: []zzPr{{0, 1, 0, 0}, {1, 1, 0, 1}, {3, 1, 0, 2}}},
+	// an account that is closed and then used again (must be rejected)
+	13: {bk: []zzBk{{0, aEq, aX, 0, 0}, {3, aEq, aX, 0, 1}}, cl: []zzCl{{1, aX}}},
+	// accounts closed after their last use
+	14: {bk: []zzBk{{0, aEq, aX, 0, 0}, {1, aEq, aA, 1, 1}, {2, aA, aEq, 1, 1}}, pr: []zzPr{{0, 1, 0, 0}, {2, 1, 0, 1}}, cl: []zzCl{{3, aX}, {4, aA}}},
 }
 
 type zzInputs struct {
@@ -128,6 +135,9 @@ func zzBuildShape(reg *model.Registry, sh zzShape, in zzInputs) *journal.Builder
 	}
 	for _, p := range sh.pr {
 		b.Add(&model.Price{Date: zzDate(zzDays[p.day]), Commodity: reg.Commodities().MustGet(zzComms[p.com]), Price: in.p[p.p], Target: reg.Commodities().MustGet(zzComms[p.tgt])})
+	}
+	for _, c := range sh.cl {
+		b.Add(&model.Close{Date: zzDate(zzDays[c.day]), Account: reg.Accounts().MustGet(zzAccounts[c.acc])})
 	}
 	for i, k := range sh.bk {
 		b.Add(transaction.Builder{
